@@ -53,8 +53,7 @@ Definition q_bsr_transpose := bsr_transpose (F:=Qc) 0.
 Definition q_bsc_transpose := bsc_transpose (F:=Qc) 0.
 (* block remove_duplicates: the scalar routines at T = list Qc with entrywise addition (append_vals) and
    abs_val(block) = sum of |entries| < zero_tol *)
-Fixpoint vadd (a b : list Qc) : list Qc :=
-  match a, b with x :: a', y :: b' => (x + y) :: vadd a' b' | _, _ => a end.
+Definition vadd := Block.vadd Qcplus.
 Definition bsmall (blk : list Qc) : bool := Qc_small (fold_right (fun v acc => Qcabs v + acc) 0 blk).
 Definition q_bsr_remove_duplicates := csr_remove_duplicates (list Qc) vadd bsmall.
 Definition q_bsc_remove_duplicates := csc_remove_duplicates (list Qc) vadd bsmall.
